@@ -135,7 +135,70 @@ def referee(work, tier):
                      "with the right check / mate suffix, and that move numbers are in order")
 
 
-MONITORS = {"order": order, "referee": referee}
+def tree(work, tier):
+    """SearchTree.tla / TreeTrace.tla against the node entries and exits of real searches (hook points node/qnode/window/exit/qexit)"""
+    import random
+    exe = build.build("plain")
+    full = tier == "thorough"
+    rng = random.Random(core.seed())
+
+    def roots(name):
+        return [l.strip() for l in open(core.roots_file(name)) if l.strip() and not l.startswith("#")]
+    general, lowmat, mate, clock, zug = roots("roots_general.fen"), roots("roots_lowmat.fen"), roots("roots_mate.fen"), roots("roots_highclock.fen"), roots("roots_zugzwang.fen")
+    found = roots("roots_nearmate_found.fen")
+    nshards = 16
+    per = 3 if full else 1
+    shards, jobs = [], []
+    for k in range(nshards):
+        plan = []
+        for _ in range(per):
+            # fen | moves | depth | from_iter | cap | tt
+            plan.append("%s||%d|1|%d|fresh" % (rng.choice(general), rng.choice([2, 3]), 500))
+            plan.append("%s|@shuffle|%d|%d|%d|warm" % (rng.choice(lowmat + general[:20]), 4, 3, 500))
+            plan.append("%s||%d|1|%d|fresh" % (rng.choice(mate + found + zug[:200]), 3, 400))
+            plan.append("%s||%d|2|%d|warm" % (rng.choice(clock), 3, 300))
+            d = rng.choice([7, 8, 9])
+            plan.append("%s||%d|%d|%d|fresh" % (rng.choice(general), d, d - 1, 1500))
+        pf = os.path.join(work, "plan.%d.txt" % k)
+        open(pf, "w").write("\n".join(plan) + "\n")
+        out = os.path.join(work, "tree.%d.ndjson" % k)
+        jobs.append((pf, out))
+        shards.append(out)
+    from concurrent.futures import ThreadPoolExecutor
+    with ThreadPoolExecutor(max_workers=8) as ex:
+        list(ex.map(lambda j: core.run_vh(exe, ["tree-runs", "--plan", j[0], "--out", j[1]], timeout=900), jobs))
+    # D: the value discipline of the node loop (zero-width probe, re-search, mate-distance step, fail-soft bounds) on every abstract tree;
+    #    the seeded design errors must be rejected by the same theorem
+    variants = ["engine", "no_research", "step_toward_mate", "no_step"]
+
+    def design(v):
+        cfgname = "AlphaBeta.cfg" if (v == "engine" and full) else "AlphaBeta_%s.cfg" % v
+        return v, core.tlc("AlphaBeta.tla", cfg=cfgname, workers=4, timeout=1800, metadir=os.path.join(work, "md-ab-" + v))
+    with ThreadPoolExecutor(max_workers=4) as ex:
+        dres = dict(ex.map(design, variants))
+    core.tlc_ok(dres["engine"], "AlphaBeta design")
+    for v in variants[1:]:
+        if dres[v]["rc"] != 12:
+            raise InfraError("AlphaBeta: the seeded design error %s was not rejected (rc=%d)" % (v, dres[v]["rc"]))
+    viols, cnt, st = core.validate_shards(shards, module="TreeTrace.tla", cfg="TreeTrace.cfg", timeout=3000)
+    cnt["design_trees"] = dres["engine"]["distinct"]
+    lines = core.count_lines(shards)
+    if cnt.get("go", 0) + cnt.get("n", 0) + cnt.get("x", 0) + nshards * per * 5 != lines:
+        raise InfraError("tree monitor consumed %d of %d lines" % (cnt.get("go", 0) + cnt.get("n", 0) + cnt.get("x", 0), lines))
+    for k in ("qentry", "null", "capture_steps", "drawn_nodes", "repeated_nodes", "mated_nodes", "rule_values", "stopped_exits"):
+        if cnt.get(k, 0) == 0:
+            raise InfraError("vacuous search-tree run: no %s observed" % k)
+    return dict(viols=viols, counters=cnt, states=st["distinct"], spec=["SearchTree.tla", "TreeTrace.tla", "AlphaBeta.tla"],
+                what="AlphaBeta.tla: the node loop's value discipline (zero-width probe of every move, full re-search at pv nodes, mate-distance step, fail-soft "
+                     "returns) satisfies the fail-soft theorem against plain minimax on every leaf assignment of the abstract tree and every listed window, and "
+                     "three seeded design errors are rejected by it.  TreeTrace.tla: every node entry and exit of recorded searches (shallow complete searches, late iterations of deep ones, roots with a repeated history, "
+                     "roots at the fifty-move boundary, mating roots) is replayed on the specification's game machine: each activation follows its parent by a legal "
+                     "move, a null move, a verification / internal-deepening / horizon step under the conditions the search may take them; windows nest; depth "
+                     "decreases; out of check quiescence visits captures and promotions only; nodes the rules decide (draw by rule away from the root, mate, stalemate) "
+                     "visit nothing and return the rule's value; no value leaves [-MATE, MATE]; entries and exits are balanced")
+
+
+MONITORS = {"order": order, "referee": referee, "tree": tree}
 
 if __name__ == "__main__":
     args = sys.argv[1:]
